@@ -88,8 +88,27 @@ def gen(rng: random.Random, k: int, tier: str) -> dict:
            "restart_w": rng.choice([0.0, 0.3, 1.0]), "cli_w": rng.choice([0.0, 0.3, 0.6])}
     ops = []
     nws = rng.randint(1, 3)
+    first = None
     for i in range(nws):
-        ops.append({"op": "defws", "id": i, "ws": _exportable_ws(rng, f"w{i}")})
+        if first is not None and rng.random() < 0.5:
+            # same structure and histogram names, different numbers: the ROOT file keeps its size and
+            # key list, only its content (and mtime) changes - the hardest case for any cache validation
+            ws = copy.deepcopy(first)
+            f = rng.choice([0.5, 1.25, 2.0])
+            for c in ws["channels"]:
+                for s_ in c["samples"]:
+                    s_["data"] = [round(v * f, 3) for v in s_["data"]]
+                    for m in s_["modifiers"]:
+                        if m["type"] == "histosys":
+                            m["data"] = {k: [round(v * f, 3) for v in vals] for k, vals in m["data"].items()}
+                        elif m["type"] in ("shapesys", "staterror"):
+                            m["data"] = [round(v * f, 3) for v in m["data"]]
+            for o in ws["observations"]:
+                o["data"] = [float(round(v * f)) for v in o["data"]]
+        else:
+            ws = _exportable_ws(rng, f"w{i}")
+        first = first or ws
+        ops.append({"op": "defws", "id": i, "ws": ws})
     disk = {}  # dir -> state
     cwd = "root"
     for _ in range(cfg["len"]):
